@@ -25,6 +25,10 @@ pub struct Opts {
     pub skip_none: bool,
     /// None = library default (`::serde`)
     pub serde_path: Option<String>,
+    /// derive mode through the library API without `set_struct_ident` (the ident is documented
+    /// as optional; it only feeds error texts)
+    #[serde(default)]
+    pub omit_struct_ident: bool,
 }
 
 impl Opts {
@@ -32,7 +36,7 @@ impl Opts {
         let mut o = GraphQLClientCodegenOptions::new(if self.derive_mode { CodegenMode::Derive } else { CodegenMode::Cli });
         if let Some(n) = &self.operation_name {
             o.set_operation_name(n.clone());
-            if self.derive_mode {
+            if self.derive_mode && !self.omit_struct_ident {
                 o.set_struct_ident(proc_macro2::Ident::new(n, proc_macro2::Span::call_site()));
             }
         }
